@@ -355,8 +355,8 @@ def gtbInit (pageBB : BB) (boxes : List Box) : GState :=
     plane := mkPlane pageBB (boxes.zipIdx.map fun (b, i) => nodePObj i (.leaf b)),
     done := [], nodes := boxes.map Node.leaf, tie := false, err := false }
 
-/-- Enough fuel for every run (theorem `C08_gtb_terminates`): `2·n·(n−1) + 1`. -/
-def gtbFuel (n : Nat) : Nat := 2 * n * (n - 1) + 1
+/-- Enough fuel for every run (theorem `C08_terminates`): `3·n² + 1` loop iterations. -/
+def gtbFuel (n : Nat) : Nat := 3 * n * n + 1
 
 structure Flags where
   tie : Bool := false
